@@ -15,7 +15,22 @@ COMMON_ASSUMPTIONS = [
 
 ENGINES = ['global_cache', 'thread_local_cache', 'async_cache']
 
+def _lock(kinds, prop):
+    def run(tier):
+        from extract import check
+        return check.lock_check(kinds, prop)(tier)
+    return run
+
+
 PROPERTIES = {
+    'C16': dict(units=ENGINES, extra=[_lock(['cell'], 'C16')],
+                explanation='panic freedom of every extracted engine function (overflow, indexing, unwrap, callee preconditions such as rand_below(n > 0)) proved by Verus, '
+                            'plus RefCell guard-liveness obligations on the original thread_local_cache.rs (no borrow_mut while a borrow of the same cell is live)',
+                assumptions=['limit >= 1 where the async engine requires it; counters unsaturated; totals fit usize', 'user closures / estimators / Debug impls do not panic']),
+    'C17': dict(units=[], extra=[_lock(['rank'], 'C17')],
+                explanation='lock-rank discipline: at every acquisition site (original source text of the engines, registries and of the real macro expansions) every lock already held has a strictly smaller rank and no lock is re-acquired; a sufficient condition for deadlock freedom for all schedules',
+                assumptions=['locks taken inside user closures / predicates / estimate_memory are not covered', 'parking_lot locks are fair enough not to starve (deadlock freedom only)'],
+                trusted=['extract/locks.py: guard lifetimes follow Rust drop semantics (let-bound guards to end of block, temporaries to end of statement / scrutinee construct)']),
     'C06': dict(units=ENGINES, explanation='is_expired == (age >= ttl) and the get postconditions never_serves_expired / purges_expired / serves_unexpired, for all ttl and ages'),
     'C04': dict(units=ENGINES, explanation='wf / bound / exact-victim postconditions of insert and of the entry-limit eviction, all N, all six policies'),
     'C01': dict(units=ENGINES, explanation='get returns a clone of the value stored under exactly this key; insert: last store wins, survivors unchanged'),
